@@ -14,21 +14,23 @@ theorem C13_fieldIdx_sound {fields : List (String × Nat)} {rs : RecordState} {n
     (∃ k, fields[i]? = some (name, k)) ∧ i ≥ rs.current :=
   fieldIdx_sound h
 
-/-- C13.5 (flush loop, as stated): between two fields the loop has nothing to do and keeps the
-    invariant. -/
+/-- C13.5 (flush loop between two fields): under the full invariant `RecInv` — the slot of the
+    field currently waited for is empty — the loop has nothing to do: it succeeds, whatever the
+    fuel and the writer, and returns the machine and the writer UNCHANGED (so it trivially keeps
+    the invariant; the former statement of this name assumed the run `= (.ok rs', s')` and
+    concluded `RecInv … rs' s'` only).  The form that does work is `C13_flush_establishes`. -/
 theorem C13_flush_invariant (fields : List (String × Nat)) (enc : Nat → Bytes) (base : Bytes)
-    (fuel : Nat) (rs : RecordState) (s : SerState) (rs' : RecordState) (s' : SerState)
-    (_hb : s.budget = none) (hinv : RecInv fields enc base rs s)
-    (hok : flushBuffered fuel rs s = (.ok rs', s')) : RecInv fields enc base rs' s' := by
+    (fuel : Nat) (rs : RecordState) (s : SerState) (hinv : RecInv fields enc base rs s) :
+    flushBuffered fuel rs s = (.ok rs, s) := by
   cases fuel with
-  | zero => simp [flushBuffered] at hok; obtain ⟨h1, h2⟩ := hok; subst h1 h2; exact hinv
+  | zero => simp [flushBuffered]
   | succ fuel =>
-    unfold flushBuffered at hok
-    split at hok
+    unfold flushBuffered
+    split
     · rename_i b hb
       have := (hinv.2.1 _ b hb).1
       omega
-    · simp at hok; obtain ⟨h1, h2⟩ := hok; subst h1 h2; exact hinv
+    · rfl
 
 /-- C13.5 (flush loop, the form that does the work): entered right after field `current-1` was
     written, i.e. with the weak invariant `RecInvW` (the slot at `current` may be occupied), with
@@ -43,19 +45,54 @@ theorem C13_flush_establishes (fields : List (String × Nat)) (enc : Nat → Byt
   obtain ⟨rs', s', h1, h2, h3, h4⟩ := flushBuffered_inv fields enc base fuel rs s hb hfuel hinv
   exact ⟨rs', s', h1, h2, h3, h4, flushBuffered_done fuel rs s rs' (by rw [h1])⟩
 
-/-- C13.5 (`serialize_field`): with a value serializer that appends exactly `enc idx` to an
-    unlimited writer, `recordValue` preserves the invariant and marks field `idx` presented. -/
+/-- C13.5 (`serialize_field`): with a value serializer that, ON THE NODE OF FIELD `idx` and on an
+    unlimited writer WITH A CLEAN POOL, appends exactly `enc idx`, `recordValue` preserves the
+    invariant and marks field `idx` presented.  (The former statement asked this of `serv` on
+    EVERY node and EVERY unlimited state, which the serializer the machine is really run with —
+    `fun node => ser ext allowSlow S node v` — never satisfies: it fails on `union []`, and panics
+    on a dirty pool.  The present hypothesis is met by the real `ser`:
+    `C13_recordValue_invariant_ser`.) -/
 theorem C13_recordValue_invariant (fields : List (String × Nat)) (enc : Nat → Bytes) (base : Bytes)
     (S : Schema) (rs : RecordState) (idx : Nat) (serv : Node → SerM Unit) (s : SerState)
     (rs' : RecordState) (s' : SerState)
-    (hb : s.budget = none) (hidx : rs.current ≤ idx)
-    (hserv : ∀ node s, s.budget = none →
+    (hb : s.budget = none) (hc : PoolClean s.pool) (hidx : rs.current ≤ idx)
+    (hserv : ∀ f node s, fields[idx]? = some f → S[f.2]? = some node → s.budget = none →
+      PoolClean s.pool →
       ∃ s', serv node s = (.ok (), s') ∧ s'.out = s.out ++ enc idx ∧ s'.budget = none)
     (hinv : RecInv fields enc base rs s)
     (hok : recordValue S fields rs idx serv s = (.ok rs', s')) :
     RecInv fields enc base rs' s' ∧ s'.budget = none ∧
       (∀ i, RecDone rs i ∨ i = idx → RecDone rs' i) :=
-  recordValue_inv fields enc base S rs idx serv s rs' s' hb hidx hserv hinv hok
+  recordValue_inv_gen PoolClean
+    (fun s buf s1 hp hcl => by
+      obtain ⟨b', s1', e1, _, _, _, c1⟩ := popBuffer_op s hcl
+      rw [hp] at e1
+      simp only [Prod.mk.injEq, Except.ok.injEq] at e1
+      rw [e1.2]; exact c1)
+    fields enc base S rs idx serv s rs' s' hb hc hidx hserv hinv hok
+
+/-- The same for the value serializer the machine is really run with (`serFields` calls
+    `recordValue … (fun node => ser ext allowSlow S node v)`): it is enough that the value
+    serializes ON ITS OWN (from the empty unlimited writer) on the node of field `idx`, to
+    `enc idx`. -/
+theorem C13_recordValue_invariant_ser (ext : Ext) (allowSlow : Bool)
+    (fields : List (String × Nat)) (enc : Nat → Bytes) (base : Bytes)
+    (S : Schema) (rs : RecordState) (idx : Nat) (v : SV) (s : SerState)
+    (rs' : RecordState) (s' : SerState)
+    (hb : s.budget = none) (hc : PoolClean s.pool) (hidx : rs.current ≤ idx)
+    (hv : ∀ f node, fields[idx]? = some f → S[f.2]? = some node →
+      ∃ t, ser ext allowSlow S node v {} = (.ok (), t) ∧ t.out = enc idx)
+    (hinv : RecInv fields enc base rs s)
+    (hok : recordValue S fields rs idx (fun node => ser ext allowSlow S node v) s = (.ok rs', s')) :
+    RecInv fields enc base rs' s' ∧ s'.budget = none ∧
+      (∀ i, RecDone rs i ∨ i = idx → RecDone rs' i) :=
+  C13_recordValue_invariant fields enc base S rs idx (fun node => ser ext allowSlow S node v) s rs' s'
+    hb hc hidx
+    (fun f node s0 hf hnode hb0 hc0 => by
+      obtain ⟨t, ht, hto⟩ := hv f node hf hnode
+      obtain ⟨s1, h1, h2, h3⟩ := ser_appends ext allowSlow S node v t ht s0 hb0 hc0
+      exact ⟨s1, h1, by rw [h2, hto], h3⟩)
+    hinv hok
 
 /-- C13.6, explicit form.  A record with pairwise distinct field names whose field value `i`
     serializes on its own (from the empty unlimited writer) to `enc i`: presenting all fields as
